@@ -131,7 +131,10 @@ def strategy(tier):
     })
 
     def builder_case(kind):
-        flags = {"ff": st.booleans(), "edw": st.booleans()} if kind == "class" else {}
+        flags = (
+            {"ff": st.booleans(), "edw": st.booleans(), "configure": st.sampled_from(["ctor", "ctor", "attrs", "reconfigure"])}
+            if kind == "class" else {}
+        )
         phsp = st.sampled_from(PHSP) if kind == "class" else st.just("default")
         return st.fixed_dictionaries({
             "mode": st.just("builder"), "builder": st.just(kind), **flags, "phsp": phsp,
@@ -532,10 +535,34 @@ def _case_builder(desc) -> Result:  # noqa: C901, PLR0911, PLR0912, PLR0914, PLR
         helicity_theta=th, helicity_phi=ph, angular_momentum=ell,
     )
     if bkind == "class":
-        callee = under_test(
-            "RelativisticBreitWignerBuilder()", bld.RelativisticBreitWignerBuilder,
-            form_factor=ff, energy_dependent_width=edw, phsp_factor=_phsp_class(phsp),
-        )
+        how = desc.get("configure", "ctor")
+        if how == "ctor":
+            callee = under_test(
+                "RelativisticBreitWignerBuilder()", bld.RelativisticBreitWignerBuilder,
+                form_factor=ff, energy_dependent_width=edw, phsp_factor=_phsp_class(phsp),
+            )
+        else:
+            # the public attributes of an existing builder are (re)assigned, the way the library's own
+            # tests flip the two flags; "reconfigure": the builder was built with the opposite settings
+            # and has been called once before
+            labels.append(f"builder_configured_by:{how}")
+            if how == "attrs":
+                callee = under_test("RelativisticBreitWignerBuilder()", bld.RelativisticBreitWignerBuilder)
+            else:
+                other = [c for c in PHSP if c != phsp][len(phsp) % (len(PHSP) - 1)]
+                callee = under_test(
+                    "RelativisticBreitWignerBuilder()", bld.RelativisticBreitWignerBuilder,
+                    form_factor=not ff, energy_dependent_width=not edw, phsp_factor=_phsp_class(other),
+                )
+                try:
+                    callee(particle, pool)
+                except ValueError:
+                    pass
+            callee.form_factor = ff
+            callee.energy_dependent_width = edw
+            from ampform.dynamics.phasespace import PhaseSpaceFactor as _default_phsp  # noqa: PLC0415
+
+            callee.phsp_factor = _phsp_class(phsp) or _default_phsp
     else:
         callee = getattr(bld, bkind)
     try:
